@@ -1,4 +1,6 @@
+mod explain;
 mod interp;
+mod lockfuzz;
 mod oracle;
 mod payload;
 mod props;
@@ -43,6 +45,7 @@ pub fn run_case(prop: &str, case: &Case) -> CaseOut {
     let prof = props::profile(prop, "quick");
     let prog = case.decode(&prof);
     let out = interp::run_any(&prog);
+    oracle::EXPLAIN.with(|e| e.set(prop == "C03"));
     let (viols, feat) = oracle::evaluate(&prog, &out);
     let ops = &out.exec.ops;
     let mut co = CaseOut::default();
@@ -210,6 +213,47 @@ fn main() {
         "replay" => {
             let prop = &args[2];
             let code = driver::run_replay(&eng, prop, &PathBuf::from(&args[3]));
+            std::process::exit(code);
+        }
+        "lockcheck" => {
+            let prop = args[2].clone();
+            let tier = args.get(3).cloned().unwrap_or_else(|| "quick".into());
+            let seed = driver::seed_from_env();
+            let workers: u64 = std::env::var("VERIF_WORKERS").ok().and_then(|s| s.parse().ok()).unwrap_or(16);
+            let base: u32 = if tier == "thorough" { 150_000 } else { 4000 };
+            let code = driver::run_parent(
+                &lockfuzz::LockEng,
+                ParentCfg {
+                    prop: &prop,
+                    tier: &tier,
+                    seed,
+                    workers,
+                    cases_per_worker: std::env::var("VERIF_CASES").ok().and_then(|s| s.parse().ok()).unwrap_or(base),
+                    level: "exploration",
+                    rule: lockfuzz::RULE,
+                    assumptions: vec![
+                        "the lock is exercised directly through the re-export of the `verif` feature (same type the channel uses); executions are sequentially consistent interleavings, happens-before computed from the orderings as written".into(),
+                        "progress is decided as deterministic stuck/livelock detection under a fair round-robin tail".into(),
+                    ],
+                    exe_args: vec!["lock".into()],
+                    engine_name: "lock",
+                },
+            );
+            std::process::exit(code);
+        }
+        "lock" => {
+            // lock worker / replay: args shifted by one
+            let sub = args.get(2).map(|s| s.as_str()).unwrap_or("");
+            if sub == "worker" {
+                let out = PathBuf::from(&args[8]);
+                driver::run_worker(&lockfuzz::LockEng, &args[3], &args[4], args[5].parse().unwrap(), args[6].parse().unwrap(), args[7].parse().unwrap(), &out);
+            } else if sub == "replay" {
+                let code = driver::run_replay(&lockfuzz::LockEng, &args[3], &PathBuf::from(&args[4]));
+                std::process::exit(code);
+            }
+        }
+        "lockreplay" => {
+            let code = driver::run_replay(&lockfuzz::LockEng, &args[2], &PathBuf::from(&args[3]));
             std::process::exit(code);
         }
         "hex" => {
